@@ -374,6 +374,64 @@ def Opaque_obj():
 
 
 # ---------------------------------------------------------------------------------------------
+# frame-guard exemption (pv/guards.py): gamma_L fills the default `max_load_independently_for_nodes` into the parameter Series it is handed when the entry is missing;
+# the entries the caller passed are still compared
+GUARD_EXEMPT = {'FKMLoadDistributionNormal.gamma_L:input_parameters': ('may-add-entries', "gamma_L adds the default entry 'max_load_independently_for_nodes' to the caller's parameter Series"),
+                'FKMLoadDistributionLognormal.gamma_L:input_parameters': ('may-add-entries', "as for the normal distribution")}
+
+
+@bounded('C09', 'load-maximum-and-gamma_L', shards=1)
+def b_lmax(ctx):
+    """FKMLoadSequence.maximum_absolute_load - which the gamma_L proof takes under contract - on the real accessor: the maximum of |load| over the LOAD column only
+    (per node, or over all nodes), for a Series, a one-column frame and a frame with further columns (stress gradient G) whose numbers exceed the loads; and the
+    normal-distribution gamma_L of each container against (L_max + alpha_L)/L_max with alpha_L from the guideline (added after seed C09-e took the maximum over all
+    columns)"""
+    import warnings
+    import numpy as np
+    import pandas as pd
+    from scipy.stats import norm
+    import pylife.strength.fkm_load_distribution   # noqa
+    warnings.simplefilter('ignore')
+    seq = np.array([0.1, -0.2, 0.1, -0.25, 0.2, 0.0, 0.2, -0.2])
+    ctx.bound = "one sequence in relative units (max |L| = 0.25 and x 400) on 1 and 2 nodes; containers Series / frame [S_v] / frame [S_v, G] with G = 2.0, 1.5; per-node and overall maximum; P_A in {1e-5, 7.2e-5, 1e-3}, P_L in {2.5, 50}, s_L = 0.04 L_max"
+    ctx.rule = "every (scale, container, parameter set) is one case; non-trivial: more than one column or node"
+    for scale in (1.0, 400.0):
+        idx = pd.MultiIndex.from_product([range(len(seq)), [7, 3]], names=['load_step', 'node_id'])
+        loads2 = np.array([v * f for v in seq * scale for f in (1.0, 0.5)])
+        conts = {'series': pd.Series(seq * scale, index=pd.Index(range(len(seq)), name='load_step')),
+                 'series-2-nodes': pd.Series(loads2, index=idx),
+                 'frame[S_v]': pd.DataFrame({'S_v': loads2}, index=idx),
+                 'frame[S_v,G]': pd.DataFrame({'S_v': loads2, 'G': [2.0, 1.5] * len(seq)}, index=idx)}
+        for cname, obj in conts.items():
+            ctx.case(cname != 'series', key=(scale, cname, 'lmax'))
+            want_all = 0.25 * scale
+            got_all = obj.fkm_load_sequence.maximum_absolute_load()
+            if not np.isclose(got_all, want_all, rtol=1e-12):
+                ctx.fail(f'C09:maximum_absolute_load:{cname}', f'maximum_absolute_load of {cname} (loads x {scale}) = {got_all}, max |load| = {want_all}', {'container': cname, 'scale': scale})
+            if cname != 'series':
+                per = obj.fkm_load_sequence.maximum_absolute_load(max_load_independently_for_nodes=True)
+                per = per.iloc[:, 0] if isinstance(per, pd.DataFrame) else per       # a one-column frame stays a one-column frame
+                wantp = {7: 0.25 * scale, 3: 0.125 * scale}
+                if not all(np.isclose(float(per[k_]), v_, rtol=1e-12) for k_, v_ in wantp.items()):
+                    ctx.fail(f'C09:maximum_absolute_load:per-node:{cname}', f'per-node maximum of {cname} = {dict(per)}, expected {wantp}', {'container': cname, 'scale': scale})
+            for PA, PL in ((1e-5, 50), (1e-5, 2.5), (7.2e-5, 50), (7.2e-5, 2.5), (1e-3, 50), (1e-3, 2.5)):
+                sL = 0.04 * want_all
+                prm = pd.Series({'P_A': PA, 'P_L': PL, 's_L': sL})
+                beta = -norm.ppf(PA)
+                alpha = (0.7 * beta if PL == 50 else 0.7 * beta - 2) * sL
+                want = (want_all + alpha) / want_all
+                ctx.case(cname != 'series', key=(scale, cname, PA, PL))
+                try:
+                    got = obj.fkm_safety_normal_from_stddev.gamma_L(prm)
+                except Exception as e:   # noqa
+                    ctx.fail(f'C09:gamma_L:{cname}:raises:{type(e).__name__}', f'gamma_L on {cname} raises {type(e).__name__}: {str(e)[:120]}', None)
+                    continue
+                # the library takes beta from the guideline's table (4.27 for P_A = 1e-5, exact 4.2649): the two agree to 2e-4 in gamma_L
+                if not np.isclose(float(got), want, rtol=5e-4):
+                    ctx.fail(f'C09:gamma_L:{cname}', f'gamma_L of {cname} (loads x {scale}, P_A={PA}, P_L={PL}) = {float(got)}, guideline formula {want}', {'container': cname, 'scale': scale, 'P_A': PA, 'P_L': PL})
+    ctx.sample({'container': 'frame[S_v,G]', 'G': [2.0, 1.5], 'max |S_v|': 0.25})
+
+
 @bounded('C09', 'compute_beta-grid', shards=2)
 def b_beta(ctx):
     """compute_beta converges and equals -norm.ppf on a log grid of (0, 0.5]"""
